@@ -65,15 +65,19 @@ Proof.
   destruct (id =? PROTO_RPC_TCP).
   { rewrite Hb, Hd. destruct t as [tc|]; cbn [pstate_of].
     - destruct (t_pstate tc) as [[h|r]|]; try reflexivity.
-      + unfold rpc_repl_tcp. destruct (r_state (rpc_parse r p) =? R_END); cbn [render reply_port];
+      + unfold rpc_repl_tcp. destruct (r_state (rpc_parse r p) =? R_END);
+          [destruct (r_mtype (rpc_parse r p) =? 0)|]; cbn [render reply_port];
           eexists _, _; rewrite ?Hb, ?Hd; repeat split; reflexivity.
-      + unfold rpc_repl_tcp. destruct (r_state (rpc_parse (rpc_new R_FRAG) p) =? R_END); cbn [render reply_port];
+      + unfold rpc_repl_tcp. destruct (r_state (rpc_parse (rpc_new R_FRAG) p) =? R_END);
+          [destruct (r_mtype (rpc_parse (rpc_new R_FRAG) p) =? 0)|]; cbn [render reply_port];
           eexists _, _; rewrite ?Hb, ?Hd; repeat split; reflexivity.
-    - unfold rpc_repl_tcp. destruct (r_state (rpc_parse (rpc_new R_FRAG) p) =? R_END); cbn [render reply_port snd];
+    - unfold rpc_repl_tcp. destruct (r_state (rpc_parse (rpc_new R_FRAG) p) =? R_END);
+        [destruct (r_mtype (rpc_parse (rpc_new R_FRAG) p) =? 0)|]; cbn [render reply_port snd];
         eexists _, _; rewrite ?Hb, ?Hd; repeat split; reflexivity. }
   destruct (id =? PROTO_RPC_UDP).
   { rewrite Hb, Hd. unfold rpc_repl_udp.
-    destruct (r_state (rpc_parse (rpc_new R_XID) p) =? R_END); cbn [render reply_port];
+    destruct ((r_state (rpc_parse (rpc_new R_XID) p) =? R_END) && (r_mtype (rpc_parse (rpc_new R_XID) p) =? 0));
+      cbn [render reply_port];
       eexists _, _; rewrite ?Hb, ?Hd; repeat split; try reflexivity; destruct t; reflexivity. }
   destruct (id =? PROTO_SMB1).
   { destruct (smb1_repl _ _ _ p) as [o|s]; cbn [bind]; [|reflexivity].
